@@ -266,6 +266,19 @@ func (m *MITM) relay(dir int) {
 				out = nil
 			case "dup":
 				out = [][]byte{f, f}
+			case "swapnext":
+				// hold this frame back and send it after the next one
+				g, err := m.readFrame(src)
+				if err != nil {
+					applied = false
+					break
+				}
+				m.mu.Lock()
+				m.frames[dir] = append(m.frames[dir], Frame{Start: off, Len: len(g), Type: g[0]})
+				m.mu.Unlock()
+				off += int64(len(g))
+				j++
+				out = [][]byte{g, f}
 			case "swap", "replace":
 				if m.Swap == nil {
 					applied = false
